@@ -99,6 +99,14 @@ Theorem C01_program_table_unique : forall env p c tm', length tm' = length (run_
   node_eqs env c (run_prog env p) tm' -> tm' = node_times env c (run_prog env p).
 Proof. exact program_table_unique. Qed.
 
+From Gen Require Flags.
+Theorem C01_equations_are_source : forall t rs re d, start_from t rs re d = start_from_source t rs re d.
+Proof. exact start_from_is_source. Qed.
+Theorem C01_multi_reference_is_strict : Flags.multi_reference_strict = true.
+Proof. exact multi_reference_is_strict. Qed.
+Print Assumptions C01_equations_are_source.
+Print Assumptions C01_multi_reference_is_strict.
+
 Print Assumptions C01_relation_equation_sound.
 Print Assumptions C01_relation_equation_unique.
 Print Assumptions C01_equations.
